@@ -114,6 +114,30 @@ static void over_avx (OrcCompiler * p, void *user, OrcInstruction * insn)
   else { orc_avx_sse_emit_paddw (p, src0, src1, dest); orc_avx_sse_emit_por (p, dest, dest, dest); }
 }
 
+/* an application opcode with three vector sources (d = a * b + c on 16-bit lanes) and its sse rule; registered in
+ * every history */
+static void emu_madd (OrcOpcodeExecutor *ex, int offset, int n)
+{
+  int i;
+  const orc_uint16 *a = ex->src_ptrs[0], *b = ex->src_ptrs[1], *c = ex->src_ptrs[2];
+  orc_uint16 *d = ex->dest_ptrs[0];
+  (void) offset;
+  for (i = 0; i < n; i++) d[i] = (orc_uint16) (a[i] * b[i] + c[i]);
+}
+static OrcStaticOpcode setMadd[] = { { "xmaddwx", 0, { 2 }, { 2, 2, 2 }, emu_madd }, { "" } };
+static int madd_rule_calls;
+static void rule_madd_sse (OrcCompiler * p, void *user, OrcInstruction * insn)
+{
+  int a = p->vars[insn->src_args[0]].alloc, b = p->vars[insn->src_args[1]].alloc, c = p->vars[insn->src_args[2]].alloc, dest = p->vars[insn->dest_args[0]].alloc;
+  int tmp = orc_compiler_get_temp_reg (p);
+  (void) user;
+  madd_rule_calls++;
+  orc_sse_emit_movdqa (p, a, tmp);
+  orc_sse_emit_pmullw (p, b, tmp);
+  orc_sse_emit_paddw (p, c, tmp);
+  orc_sse_emit_movdqa (p, tmp, dest);
+}
+
 /* ---- history alphabet ---- */
 static const char *tnames[] = { "sse", "avx", "mmx" };
 /* flag requirement kinds: 0 none, 1 a flag the CPU has (SSE4.1 for sse/avx, MMX for mmx), 2 a flag the CPU lacks (SSE5 bit / 3DNOW) */
@@ -197,6 +221,8 @@ static void child (const Op * hist, int nh, int wfd)
   for (i = 0; i < 24; i++) { S1v[i] = (orc_uint16) (i * 3001 + 17); S2v[i] = (orc_uint16) (i * 7919 + 60000); }
   orc_opcode_register_static (setMixed, "appMixed");
   orc_opcode_register_static (setAcc, "appAcc");
+  orc_opcode_register_static (setMadd, "appMadd");
+  orc_rule_register (orc_rule_set_new (orc_opcode_set_get ("appMadd"), orc_target_get_by_name ("sse"), 0), "xmaddwx", rule_madd_sse, NULL);
   for (i = 0; i < nh; i++) {
     const Op *o = &hist[i];
     if (o->kind == 0) {
@@ -373,6 +399,44 @@ static void child (const Op * hist, int nh, int wfd)
       for (i = 0; i < 3; i++) if ((orc_uint32) ex.accumulators[i] != want[i])
         FAIL ("%s%s %s%s%s, s1 under emulation: accumulator a%d is 0x%x, the application's function gives 0x%x", form == 2 ? "accl into the third accumulator, then " : "",
             form == 0 ? "accsumlx" : "accsumsqlx", an[da], form ? ", " : "", form ? an[db] : "", i + 1, (unsigned) ex.accumulators[i], (unsigned) want[i]);
+      orc_program_free (p);
+    }
+  }
+  /* the three-source application opcode on sse and under emulation: each source position fed by an array or by a
+   * temporary that an earlier built-in instruction computes */
+  {
+    int tpos, native;
+    for (tpos = -1; tpos < 3; tpos++) for (native = 0; native < 2; native++) {
+      OrcProgram *p = orc_program_new ();
+      OrcExecutor ex;
+      orc_uint16 A[5][24], d[24], want[24];
+      int k, before = madd_rule_calls, v[3], t1, d1;
+      for (k = 0; k < 5; k++) for (i = 0; i < 24; i++) A[k][i] = (orc_uint16) ((k + 2) * 1237 + i * (311 + 2 * k));
+      for (i = 0; i < 24; i++) d[i] = 0x5a5a;
+      orc_program_set_name (p, "madd");
+      d1 = orc_program_add_destination (p, 2, "d1");
+      for (k = 0; k < 5; k++) { char nm[8]; sprintf (nm, "s%d", k + 1); v[k < 3 ? k : 0] = k < 3 ? orc_program_add_source (p, 2, nm) : (orc_program_add_source (p, 2, nm), v[0]); }
+      t1 = orc_program_add_temporary (p, 2, "t1");
+      if (tpos >= 0) { orc_program_append_str (p, "mullw", "t1", "s4", "s5"); v[tpos] = t1; }
+      orc_program_append_2 (p, "xmaddwx", 0, d1, v[0], v[1], v[2]);
+      if (native) { if (!ORC_COMPILE_RESULT_IS_SUCCESSFUL (orc_program_compile_for_target (p, orc_target_get_by_name ("sse")))) FAIL ("three-source extension opcode xmaddwx (temporary in source %d) does not compile on sse", tpos); }
+      else if (ORC_COMPILE_RESULT_IS_FATAL (orc_program_compile_for_target (p, NULL))) FAIL ("three-source extension opcode xmaddwx: fatal compile for emulation");
+      if (native && madd_rule_calls == before) FAIL ("compiling xmaddwx on sse did not use the application's rule");
+      for (i = 0; i < 21; i++) {
+        orc_uint16 op[3];
+        for (k = 0; k < 3; k++) op[k] = k == tpos ? (orc_uint16) (A[3][i] * A[4][i]) : A[k][i];
+        want[i] = (orc_uint16) (op[0] * op[1] + op[2]);
+      }
+      memset (&ex, 0, sizeof (ex));
+      orc_executor_set_program (&ex, p);
+      ex.n = 21;
+      ex.arrays[ORC_VAR_D1] = d;
+      for (k = 0; k < 5; k++) ex.arrays[ORC_VAR_S1 + k] = A[k];
+      if (native) orc_executor_run (&ex); else orc_executor_emulate (&ex);
+      for (i = 0; i < 21; i++) if (d[i] != want[i])
+        FAIL ("xmaddwx d1 <- a*b+c with %s %s: element %d is 0x%04x, the application's function of the operands gives 0x%04x", tpos < 0 ? "three array sources" : tpos == 0 ? "a = t1 (mullw s4, s5)" : tpos == 1 ? "b = t1 (mullw s4, s5)" : "c = t1 (mullw s4, s5)",
+            native ? "compiled for sse with the application's rule" : "under emulation", i, d[i], want[i]);
+      if (d[21] != 0x5a5a) FAIL ("xmaddwx wrote past n");
       orc_program_free (p);
     }
   }
